@@ -17,12 +17,40 @@ func (e *Engine) dataVal(v Val) Val {
 }
 
 func (e *Engine) execCall(fc *fnCtx, b *ssa.BasicBlock, st *State, c *ssa.CallCommon, instr *ssa.Call, pos token.Pos) Val {
-	if fc.contract != nil && len(fc.contract.Preserves) > 0 && len(e.inlineStack) == 0 && instr != nil {
+	if fc.contract != nil && (len(fc.contract.Preserves) > 0 || len(fc.contract.Assumes) > 0) && len(e.inlineStack) == 0 && instr != nil {
 		if key := e.callKey(fc, c, instr); key != "" {
-			if ds, ok := fc.contract.Preserves[key]; ok {
+			ds, hasP := fc.contract.Preserves[key]
+			all := fc.contract.PreserveAll[key]
+			as, hasA := fc.contract.Assumes[key]
+			if hasP || all || hasA {
 				pre := st.clone()
+				if all {
+					e.preserveAllCall = true
+				}
 				v := e.execCall0(fc, b, st, c, instr, pos)
-				e.applyPreserves(fc, pre, st, ds, key)
+				if all {
+					// trusted: the call changes nothing that existed before it; it may allocate. A callee with a contract
+					// was applied without havoc (applyContract consumed the flag: only ghost state is havoc'd and the
+					// allocation counter grows - what the callee wrote into the objects it allocated is whatever the
+					// unallocated part of the heaps holds, constrained only by its postconditions). Any other callee:
+					// restore the pre-call heaps, keep the new allocation counter.
+					if e.preserveAllCall {
+						e.preserveAllCall = false
+						ac := e.allocCounter(st)
+						st.Heaps = map[string]string{}
+						for k, h := range pre.Heaps {
+							st.Heaps[k] = h
+						}
+						st.Epoch = pre.Epoch
+						st.Heaps[allocHeap] = ac
+					}
+					e.w.Trusted["caller-side frame assumption: "+fc.fn.Name()+" ["+key+"] changes no location that existed before the call"] = true
+				} else if hasP {
+					e.applyPreserves(fc, pre, st, ds, key)
+				}
+				if hasA {
+					e.applyAssumes(fc, st, as, key, v, c.Signature())
+				}
 				return v
 			}
 		}
@@ -469,7 +497,26 @@ func (e *Engine) applyContract(fc *fnCtx, st *State, c *Contract, args []Val, po
 		}
 		e.addObl(fc.fn, "pre-of", fmt.Sprintf("%s[%s]", calleeName, lbl), pos, st.Reach, f)
 	}
-	if c.ModAll {
+	preserveAll := false
+	if e.preserveAllCall && len(e.inlineStack) == 0 {
+		preserveAll = true
+		e.preserveAllCall = false
+	}
+	if c.ModAll && preserveAll {
+		for _, g := range e.w.Ghosts {
+			// make every ghost variable known so that it is havoc'd below
+			e.heapIn(st, "GH_"+g.Pkg.PkgPath+"."+g.Name, e.sortOf(g.Type))
+		}
+		for _, n := range sortedKeys(e.heapSorts) {
+			if strings.HasPrefix(n, "GH_") {
+				st.Heaps[n] = e.sc.declareConst("gh", e.heapSorts[n])
+			}
+		}
+		old := e.allocCounter(st)
+		na := e.sc.declareConst("alloc", "Int")
+		e.sc.assert("(>= " + na + " " + old + ")")
+		st.Heaps[allocHeap] = na
+	} else if c.ModAll {
 		// type-visibility frame: a callee in another package that receives no function value cannot reach maps whose
 		// key or element type is an unexported type of the calling package
 		curPkg := ""
@@ -639,56 +686,11 @@ func (e *Engine) designatorLocs(env *SpecEnv, d SExpr) []heapLoc {
 	return nil
 }
 
-// checkCallAsserts: `assert[call pkg.Func#k] e` clauses of the contract are obligations at the k-th call of that callee.
-func (e *Engine) checkCallAsserts(fc *fnCtx, st *State, c *ssa.CallCommon, instr *ssa.Call, pos token.Pos) {
-	sc := c.StaticCallee()
-	if sc == nil {
-		return
+// callName: the name used in call keys: the static callee (without the module prefix) or the interface method key.
+func callName(c *ssa.CallCommon) string {
+	if c.IsInvoke() {
+		return strings.ReplaceAll(ifaceMethodKey(c.Method), repoMod+"/", "")
 	}
-	name := sc.String()
-	if o := sc.Origin(); o != nil {
-		name = o.String()
-	}
-	name = strings.ReplaceAll(name, repoMod+"/", "")
-	if fc.callOcc == nil {
-		fc.callOcc = map[*ssa.Call]int{}
-		counts := map[string]int{}
-		for _, b := range fc.fn.Blocks {
-			for _, ins := range b.Instrs {
-				if call, ok := ins.(*ssa.Call); ok {
-					if f := call.Common().StaticCallee(); f != nil {
-						n := f.String()
-						if o := f.Origin(); o != nil {
-							n = o.String()
-						}
-						n = strings.ReplaceAll(n, repoMod+"/", "")
-						fc.callOcc[call] = counts[n]
-						counts[n]++
-					}
-				}
-			}
-		}
-	}
-	key := fmt.Sprintf("call %s#%d", name, fc.callOcc[instr])
-	for _, cl := range fc.contract.Asserts[key] {
-		env := fc.env.with(st)
-		env.fc = fc
-		env.vars = map[string]Val{}
-		for k, v := range fc.env.vars {
-			if _, isParam := fc.env.entryVals[k]; isParam {
-				if _, ok := e.localByName(env, k); ok {
-					continue
-				}
-			}
-			env.vars[k] = v
-		}
-		f := e.trSpec(env, cl.E).T
-		e.addObl(fc.fn, "assert", "["+key+"] "+cl.Text, pos, st.Reach, f)
-	}
-}
-
-// callKey: "call <callee>#<occurrence>" for a static call of the function under verification.
-func (e *Engine) callKey(fc *fnCtx, c *ssa.CallCommon, instr *ssa.Call) string {
 	sc := c.StaticCallee()
 	if sc == nil {
 		return ""
@@ -697,19 +699,22 @@ func (e *Engine) callKey(fc *fnCtx, c *ssa.CallCommon, instr *ssa.Call) string {
 	if o := sc.Origin(); o != nil {
 		name = o.String()
 	}
-	name = strings.ReplaceAll(name, repoMod+"/", "")
+	return strings.ReplaceAll(name, repoMod+"/", "")
+}
+
+// callKey: "call <callee>#<occurrence>" for a static or interface call of the function under verification.
+func (e *Engine) callKey(fc *fnCtx, c *ssa.CallCommon, instr *ssa.Call) string {
+	name := callName(c)
+	if name == "" {
+		return ""
+	}
 	if fc.callOcc == nil {
 		fc.callOcc = map[*ssa.Call]int{}
 		counts := map[string]int{}
 		for _, b := range fc.fn.Blocks {
 			for _, ins := range b.Instrs {
 				if call, ok := ins.(*ssa.Call); ok {
-					if f := call.Common().StaticCallee(); f != nil {
-						n := f.String()
-						if o := f.Origin(); o != nil {
-							n = o.String()
-						}
-						n = strings.ReplaceAll(n, repoMod+"/", "")
+					if n := callName(call.Common()); n != "" {
 						fc.callOcc[call] = counts[n]
 						counts[n]++
 					}
@@ -718,6 +723,54 @@ func (e *Engine) callKey(fc *fnCtx, c *ssa.CallCommon, instr *ssa.Call) string {
 		}
 	}
 	return fmt.Sprintf("call %s#%d", name, fc.callOcc[instr])
+}
+
+// callSiteEnv: specification environment at a call site of the function under verification (locals by name; the
+// parameters denote their current values).
+func (e *Engine) callSiteEnv(fc *fnCtx, st *State) *SpecEnv {
+	env := fc.env.with(st)
+	env.fc = fc
+	env.vars = map[string]Val{}
+	for k, v := range fc.env.vars {
+		if _, isParam := fc.env.entryVals[k]; isParam {
+			if _, ok := e.localByName(env, k); ok {
+				continue
+			}
+		}
+		env.vars[k] = v
+	}
+	return env
+}
+
+// checkCallAsserts: `assert[call pkg.Func#k] e` clauses of the contract are obligations at the k-th call of that callee.
+func (e *Engine) checkCallAsserts(fc *fnCtx, st *State, c *ssa.CallCommon, instr *ssa.Call, pos token.Pos) {
+	key := e.callKey(fc, c, instr)
+	if key == "" {
+		return
+	}
+	for _, cl := range fc.contract.Asserts[key] {
+		env := e.callSiteEnv(fc, st)
+		f := e.trSpec(env, cl.E).T
+		e.addObl(fc.fn, "assert", "["+key+"] "+cl.Text, pos, st.Reach, f)
+	}
+}
+
+// applyAssumes: `assume[call f#k] e` - a trusted statement about the environment, assumed right after the k-th call
+// of f; the call's results are result, result1, ... Every such clause is listed in the trusted base.
+func (e *Engine) applyAssumes(fc *fnCtx, st *State, cls []Clause, key string, v Val, sig *types.Signature) {
+	env := e.callSiteEnv(fc, st)
+	if sig != nil {
+		if len(v.Tuple) > 0 {
+			env.bindResults(sig, v.Tuple)
+		} else if sig.Results().Len() == 1 {
+			env.bindResults(sig, []Val{v})
+		}
+	}
+	for _, cl := range cls {
+		f := e.trSpec(env, cl.E).T
+		e.assume(st, f)
+		e.w.Trusted["call-site assumption: "+fc.fn.Name()+" ["+key+"] "+cl.Text] = true
+	}
 }
 
 // applyPreserves: trusted frame annotation of the caller - the listed locations have the same content after the call.
